@@ -45,11 +45,12 @@ def readers(ctx):
         shape = rng.choice(c18.SHAPES)
         n = int(numpy.prod(shape))
         tname = rng.choice([None, "Float", "Integer", "Positive Float", "Positive Integer", "Fuzzy"])
-        pool = [-9999.0, -1.0, 0.0, 0.5, 1.0, 2.0, 7.0]
+        # incl. valid values close to a marker (7, 2, 0, -12345 below): they are data, not missing cells
+        pool = [-9999.0, -1.0, 0.0, 0.5, 1.0, 2.0, 7.0, 7.00001, 6.99995, 2.00001, 4e-9, -4e-9, -12345.05, -12344.95, 2.0000000001]
         if tname in ("Positive Float", "Positive Integer"):
-            pool = [0.0, 0.5, 1.0, 2.0, 7.0]          # admissible for the declared type: only the payload under missing cells is not
+            pool = [0.0, 0.5, 1.0, 2.0, 7.0, 7.00001, 6.99995, 2.00001, 4e-9]          # admissible for the declared type: only the payload under missing cells is not
         if tname == "Fuzzy":
-            pool = [-1.0, -0.5, 0.0, 0.5, 1.0]
+            pool = [-1.0, -0.5, 0.0, 0.5, 1.0, 4e-9, -4e-9]
         vals = [rng.choice(pool) for _ in range(n)]
         mask = eems.rand_mask(rng, n, rng.choice(["one", "some"]))
         arr = numpy.ma.array(numpy.array(vals).reshape(shape), mask=numpy.array(mask).reshape(shape))
@@ -92,6 +93,66 @@ def readers(ctx):
             ctx.fail("CSV EEMSRead: missing cells %r, expected %r for MissingVal=%r" % (numpy.ma.getmaskarray(out[1]).tolist(), want, missing), {"values": vals, "DataType": integer})
 
 
+def netcdf_round_trip(ctx):
+    """a variable read from a NetCDF dataset, converted by one command, written to a dataset and read back through the library: the cells missing in
+    what comes back are exactly the cells missing in what the command computed (no valid cell is lost to a fill value on the way), values unchanged"""
+    import os
+    import numpy
+    from netCDF4 import Dataset
+    from mpilot.program import Program, EEMS_NETCDF_LIBRARIES
+    from . import c18
+    rng = ctx.rng
+    tmp = common.tmpdir("mpv_c03n_")
+    ops = [("CvtToBinary", {"Threshold": 0.25, "Direction": "LowToHigh"}), ("CvtToBinary", {"Threshold": 1, "Direction": "HighToLow"}),
+           ("CvtToFuzzy", {"TrueThreshold": 3, "FalseThreshold": -1}), ("CvtToFuzzy", {}), ("Normalize", {}), ("Normalize", {"StartVal": 1, "EndVal": 0}), ("Copy", {}),
+           ("CvtToFuzzyCat", {"RawValues": [1, 3], "FuzzyValues": [1, -1], "DefaultFuzzyValue": 0}), ("NormalizeCat", {"RawValues": [1, 0], "NormalValues": [1, 0], "DefaultNormalValue": 1}),
+           ("CvtToFuzzyCurve", {"RawValues": [-1, 1, 3], "FuzzyValues": [-1, 1, 0]}), ("NormalizeZScore", {}), ("CvtToFuzzyZScore", {"TrueThresholdZScore": 1, "FalseThresholdZScore": -1})]
+    for i, (cmd, params) in enumerate(ops * (1 if not ctx.thorough else 4)):
+        shape = rng.choice(c18.SHAPES)
+        n = int(numpy.prod(shape))
+        d = os.path.join(tmp, "rt%d" % (i % 3))
+        os.makedirs(d, exist_ok=True)
+        inp, outp = os.path.join(d, "in.nc"), os.path.join(d, "out.nc")
+        for f in (inp, outp):
+            if os.path.exists(f):
+                os.remove(f)
+        vals = [rng.choice([-2.5, -1.0, 0.0, 0.25, 1.0, 3.0, 7.5]) for _ in range(n)]
+        if len(set(vals)) < 2:
+            vals[0] = 5.0
+        a = numpy.ma.array(numpy.array(vals).reshape(shape), mask=numpy.array(eems.rand_mask(rng, n, rng.choice(["none", "one", "some"]))).reshape(shape))
+        dims = ["d%d" % k for k in range(len(shape))]
+        with Dataset(inp, "w") as ds:
+            for dn, m in zip(dims, shape):
+                ds.createDimension(dn, m)
+                ds.createVariable(dn, "f8", (dn,))[:] = [1.5 * (k + 1) for k in range(m)]
+            ds.createVariable("a", "f8", tuple(dims), fill_value=rng.choice([None, -9999.0, 1e30]))[:] = a
+        ref = eems.run_impl(eems.Case(cmd, params, [a.copy()]))
+        args = "".join(", %s = %s" % (k, v if not isinstance(v, list) else "[" + ", ".join(str(x) for x in v) + "]") for k, v in params.items())
+        src = ('A = EEMSRead(InFileName = "in.nc", InFieldName = a)\nR = %s(InFieldName = A%s)\n'
+               'Out = EEMSWrite(OutFileName = "out.nc", OutFieldNames = [R], DimensionFileName = "in.nc", DimensionFieldName = a)\n' % (cmd, args))
+        desc = {"source": src, "a": a.tolist(), "shape": shape}
+        ctx.case("nc-round-trip %r" % (desc,), sample={"source": src})
+        ctx.count("netcdf_round_trips")
+        if ref["status"] != "ok":
+            continue
+        try:
+            with numpy.errstate(all="ignore"):
+                p = Program.from_source(src, libraries=EEMS_NETCDF_LIBRARIES, working_dir=d)
+                p.run()
+            with Dataset(outp) as ds:
+                got = ds["R"][:]
+        except Exception as e:
+            ctx.fail("read, convert, write, read back fails: %s %s" % (type(e).__name__, str(e)[:160]), desc)
+            continue
+        want = ref["result"]
+        wm, gm = numpy.ma.getmaskarray(want), numpy.ma.getmaskarray(got)
+        if got.shape != want.shape or not numpy.array_equal(wm, gm):
+            ctx.fail("%s of a NetCDF variable, written and read back: missing at %r, the command's result is missing at %r (values %r)" % (
+                cmd, gm.astype(int).ravel().tolist(), wm.astype(int).ravel().tolist(), numpy.ma.getdata(want).ravel().tolist()), desc)
+        elif not numpy.allclose(numpy.ma.getdata(got)[~wm], numpy.ma.getdata(want)[~wm], rtol=1e-12, atol=0):
+            ctx.fail("%s of a NetCDF variable: values changed between computing, writing and reading back" % cmd, desc)
+
+
 def run(ctx):
     ctx.check_proofs(["MPilot.Props.C03"])
     model = common.Model()
@@ -101,6 +162,7 @@ def run(ctx):
     eems.run_stream(ctx, model, zero_weights(ctx), "exec:zero-weights", on_result=orc)
     numeric.focus_search(ctx, model, lambda cmds, f: gen(ctx, cmds, n * f), orc)
     readers(ctx)
+    netcdf_round_trip(ctx)
     return ctx.finish(
         rule="cases = (data command, parameters, inputs with masks none/one/some/most and adversarial hidden payloads ±1e20, "
              "category keys, control points); each masked case is re-run with different payloads; distinct by protocol line; "
